@@ -157,7 +157,7 @@ def _raise_sockerr(E, classes):
     E.ghost["sock_raised"] = True
     E.ghost["exc_class"] = classes[idx]
     from pyvc.engine import PyRaise
-    raise PyRaise(ExcV(classes[idx], (e, Opaque_("strerror"))))
+    raise PyRaise(ExcV(classes[idx], (e, Opaque_("strerror")), {"errno_sym": True}))
 
 
 SOCK_ERRS = [OSError, ssl.SSLError]
